@@ -1,5 +1,40 @@
 """Claimed checks -> MANIFEST.json (bin/mkmanifest).  One entry per property that has a validated check."""
 CHECKS = {
+    'C13': dict(
+        category='proof',
+        text='Effect analysis over the whole-program call graph (indirect calls through the provider ops tables and function-pointer '
+             'parameters resolved): no function reachable from jwt_checker_verify / jwt_builder_generate stores to the stored '
+             'configuration (struct jwt_common) or to any global/static. Path-sensitive dependence check with the object\'s previous '
+             'error flag left symbolic: no branch and no returned value depends on it, and the callback edits a per-call local config. '
+             'With C14 (result <=> freshly copied flag, for clean and stale objects) a reused object behaves as a fresh one.',
+        design_ref='DESIGN.md section 3 C13',
+        note='Trusted: clang front end, engine, type-based effects (char* aliasing of typed objects other than the modelled '
+             'memset/memcpy/strcpy/snprintf is not seen). Not decided: hidden state inside OpenSSL/GnuTLS/jansson.',
+        technique='mod/ref effect analysis on the resolved call graph + symbolic dependence check',
+    ),
+    'C18': dict(
+        category='other',
+        text='Decides the structural half of race freedom: for every function and library call reachable from verify/generate through '
+             'either provider, no store to a global/static, to a shared jwk_item/jwk_set/ops table, and no non-re-entrant library entry '
+             'point (strtok, ctime, one-shot OpenSSL digests with a NULL output buffer, process-wide setters); the globals read there '
+             'are written only by the documented process-wide setters, which are not reachable from those entry points.',
+        design_ref='DESIGN.md section 3 C18',
+        note='Schedules are not explored; thread-safety of OpenSSL/GnuTLS/jansson on shared read-only keys is trusted; equality of '
+             'verdicts/tokens with sequential execution follows only in as far as no shared state is written.',
+        technique='who-may-write effect analysis + non-re-entrant API rule on the resolved call graph',
+    ),
+    'C19': dict(
+        category='proof',
+        text='Taint typestate on every path of jwt_checker_verify with a callback (both providers): the JSON trees reachable from the '
+             'token object when the callback runs are callback-mutable; afterwards any library query, read or write through them is a '
+             'violation (only release is allowed) until the field is re-assigned from a snapshot taken before the callback. Non-zero '
+             'callback result => failing call with flag and message; callback-selected key/alg pass __setkey_check; the public token '
+             'API cannot write jwt->alg/key.',
+        design_ref='DESIGN.md section 3 C19',
+        note='Trusted: clang front end, engine, API model. The only state a callback can change is what the public jwt_t API reaches '
+             '(checked by the opaque-token effect rule).',
+        technique='taint typestate over abstract-interpreter paths + effect rule',
+    ),
     'C04': dict(
         category='proof',
         text='The exp/nbf comparisons of __verify_claims are extracted from the path conditions as canonical linear inequalities over '
